@@ -47,6 +47,8 @@ type Case struct {
 	InputText string `json:"input_text,omitempty"`
 	Mut       string `json:"mutation,omitempty"`
 	Reader    string `json:"reader,omitempty"`
+	Idx       []int  `json:"index_list,omitempty"` // sparse-index-lists: the index and value lists rendered into Input
+	Vals      []int  `json:"value_list,omitempty"`
 	// distributions
 	Dist string `json:"distribution,omitempty"`
 	ST   string `json:"scalar_type,omitempty"`
@@ -508,6 +510,7 @@ func setup() {
 	regMatrixView()
 	regMalformedJSON()
 	regMalformedTable()
+	regSparseIndexLists()
 	regDist()
 }
 
@@ -524,7 +527,8 @@ func main() {
 		Rule: "bounded-exhaustive over (codec ∈ {JSON, table file, gzip table file, distribution config}) × (every scalar/vector/matrix type, every distribution family incl. nested) × " +
 			"(value lattice per element type, Real derivative patterns order 0..2 × N 0..2, container dims 0..3 with every zero pattern, every Slice/T view of a 3×3 base up to the tier's op depth) for round trips; " +
 			"for malformed input: per reader one valid encoding (writer's own output and its compact form), EVERY truncation, single-byte deletion and single-byte substitution over the JSON/table alphabet, every string of ≤3 symbols over a reduced alphabet, " +
-			"every single-node structural mutation of the JSON tree, and every token-level variant (ragged/non-numeric/negative/out-of-range/duplicate index/wrong header) of 2×2 table files. " +
+			"every single-node structural mutation of the JSON tree, and every token-level variant (ragged/non-numeric/negative/out-of-range/duplicate index/wrong header) of 2×2 table files; " +
+			"for every sparse reader (JSON and table file, 4-vectors and 2×2 matrices, all 9 element types) EVERY index list of length ≤4 over {-1,0,1,2,n-1,n} in every order (duplicates at every distance, out-of-range values at every position) with values from {0,1,2} (quick: length 4 for Float64/Real64/Int with values {0, 1|2}), which must be rejected iff an index is out of range or repeated and otherwise decode to exactly the described object. " +
 			"A round-trip case is non-trivial/distinct by (reader, codec, type, object description, receiver state) when the encoder produced bytes and the decoder was run on them; a malformed case is non-trivial/distinct by (reader, input bytes) when the bytes differ from every valid encoding used and the reader was run on them.",
 		Assume: []string{
 			"only finite element values are serialised (NaN/Inf are outside the property)",
